@@ -21,7 +21,7 @@ def describe(tier):
         'bounds': 'N<=%d exhaustive over partitions x 2 content variants' % n,
         'assumptions': ['substring absence is decided for the generated values only (values are outside the alphabet); chance hit < 2^-40 per case',
                         'ciphertext entries are located by position in the pickled structure (per-scheme extractor in mc/sse.py)'],
-        'must_be_nonzero': ['repeat-variant', 'ciphertext-entries', 'two-setups'],
+        'must_be_nonzero': ['repeat-variant', 'dup-in-list-variant', 'scheme-copies-compared', 'ciphertext-entries', 'two-setups'],
     }
 
 
@@ -48,6 +48,8 @@ def case_list(name, label, cfg, tier):
         cases.append((p, 6, 'disjoint'))
         if len(p) >= 2:
             cases.append((p, 6, 'repeat'))
+        if sum(p) <= 5 and p[0] >= 2:
+            cases.append((p, 6, 'dup-in-list'))
     if label in ('base', 'default', 'default-s256', 'B0', 'B1'):
         # many encryptions by one scheme object: a periodically reused IV / key stream shows up when the number of
         # encryptions per setup hits the period (two setups of the same (K, DB) are compared)
@@ -65,6 +67,11 @@ def run_case(r, seed, name, label, cfg, profile, kwlen, relation):
     case = {'scheme': name, 'label': label, 'cfg': cfg, 'profile': profile, 'kwlen': kwlen, 'relation': relation}
     core.note_case(case)
     db, cfg1, g = sse.build_db(seed, name, label, cfg, profile, kwlen, 'disjoint', awkward=False)
+    if relation == 'dup-in-list':
+        # the same identifier twice under one keyword (a document listed twice): two postings, two independent ciphertexts
+        db = {w: (ids + [ids[0]] if i == 0 else ids) for i, (w, ids) in enumerate(db.items())}
+        cfg1 = sse.finalize_cfg(name, cfg, db)
+        r.count('dup-in-list-variant')
     if relation == 'repeat':
         rep = g.randbytes(cfg.get('param_identifier_size', 8))
         db = {w: [rep] + ids[1:] for w, ids in db.items()}
@@ -88,6 +95,26 @@ def run_case(r, seed, name, label, cfg, profile, kwlen, relation):
     except Exception as e:
         r.count("setup-raises (C01's subject, skipped here)")
         return
+    # two COPIES of one scheme object (deep copy, pickle) encrypting the same (K, DB): whatever state a scheme object carries, the
+    # copies must not replay each other's randomness.  (That a scheme object can be copied at all is not demanded.)
+    copies = []
+    if sum(profile) <= 6:
+        import pickle as _pickle
+        try:
+            blank = L.SSEScheme(copy.deepcopy(cfg1))
+            c_a, c_b = copy.deepcopy(blank), copy.deepcopy(blank)
+            copies.append(('deep-copies', c_a.EDBSetup(key, db), c_b.EDBSetup(key, db)))
+            p_a, p_b = _pickle.loads(_pickle.dumps(blank)), _pickle.loads(_pickle.dumps(blank))
+            copies.append(('pickled-copies', p_a.EDBSetup(key, db), p_b.EDBSetup(key, db)))
+        except Exception:
+            r.count('scheme-object-not-copyable (not demanded)')
+    for how, ea, eb in copies:
+        ca = set(sse.cipher_entries(name, cfg1, sse.unpickle_edb(ea.serialize())))
+        cb = set(sse.cipher_entries(name, cfg1, sse.unpickle_edb(eb.serialize())))
+        r.count('scheme-copies-compared')
+        if ca & cb:
+            r.v(PROPERTY, name, 'equal-ciphertexts', 'across-two-' + how + '-of-one-scheme-object', case, 'ciphertext entries of the two setups disjoint',
+                '%d common entries of %d' % (len(ca & cb), len(ca)))
     raw1, raw2 = edb1.serialize(), edb2.serialize()
     blob = [('edb', raw1), ('edb-second-setup', raw2)] + [('token', t) for t in toks]
     for w in db:
